@@ -28,6 +28,10 @@ def shards(tier):
         for sg, dg in [("p2x2", "t3x2"), ("t3x2", "p2x2"), ("p2x2", "p2x2")]:
             for pb in ("source", "destination"):
                 out.append(dict(op="transfer", dev=dev, sgeo=sg, dgeo=dg, k=3 if tier == "quick" else 4, steps=1, partition_by=pb, washes=[1], ncand=2, wl_max=common.BIG * 2, geo=sg))
+        # removals / additions made by a distribute whose destination wells share a position (a well listed twice; virtual rows of one
+        # trough column, which Fluent numbers alike): source and destinations are charged once per listed well
+        for dg in ("t3x2", "p2x2"):
+            out.append(dict(op="distribute", dev=dev, sgeo="t3x2", dgeo=dg, k=1, steps=1, uniq_dev="none", dsels=[[0, 1], [0, 0], [0, 3], [1]], geo="t3x2"))
     out.append(dict(op="alias", concrete=True, geo="p2x2", shapes=[], k=1))
     return out
 
@@ -62,7 +66,7 @@ def scenario(ctx, p):
         ctx.ctx["alias"] = dict(kind=kind, A=A.volumes.tolist(), B=B.volumes.tolist(), a_want=a_want, b_want=b_want,
                                 arg=(arg.tolist() if hasattr(arg, "tolist") else arg))
         return A
-    if p["op"] == "transfer":
+    if p["op"] in ("transfer", "distribute"):
         W = wlops.build(ctx, p)
         ctx.ctx["W"] = W
         wlops.run(ctx, W)
@@ -104,7 +108,7 @@ def judge(ctx, p, outcome):
         if a["kind"] != "scalar" and a["arg"] != [[5.0, 6.0], [7.0, 8.0]] and a["arg"] != [[5, 6], [7, 8]]:
             ctx.violate("C04: operations on a labware changed the caller's initial_volumes argument", info=repr(a))
         return
-    if p["op"] == "transfer":
+    if p["op"] in ("transfer", "distribute"):
         if kind != "ok":
             ctx.reach("exc:" + type(val).__name__ if isinstance(val, ns.VolumeViolationException) else "exc:other")
             return
@@ -115,7 +119,7 @@ def judge(ctx, p, outcome):
             key = (rack, W.geo[rack].real_of(wid))
             want[key] = want[key] + sign * v
         ctx.prove(ctx.all_of([ctx.eq(W.labs[r]._volumes[w], x) for (r, w), x in want.items()]),
-                  "C04: after a transfer the volumes are not initial + added - removed per real well (triples paired element-wise)")
+                  f"C04: after a {p['op']} the volumes are not initial + added - removed per real well (triples paired element-wise)")
         return
     lab = c["lab"]
     if c["pairs"] is None:
@@ -132,7 +136,7 @@ def judge(ctx, p, outcome):
 
 def describe(ctx, p, outcome):
     c = ctx.ctx
-    if p["op"] == "transfer":
+    if p["op"] in ("transfer", "distribute"):
         from harness import C01
         return C01.describe(ctx, p, outcome)
     lab = c.get("lab")
